@@ -319,6 +319,9 @@ theorem progressive_alignment_sound {α : Type} (l r : GTree α) (ap : List Pos)
     (((GTree.node l r ap).rows true).drop (l.rows true).length).map (project true (GTree.node l r ap).full) = r.rows true :=
   ⟨(GTree.rows_spec true _ h).1, (GTree.rows_spec true _ h).2, (GTree.keeps_children l r ap h).2⟩
 
+-- hypotheses satisfiable: the 3-sequence tree (GA,(CA,A)) with a gap column inserted between the inner columns
+example : exTree.valid = true ∧ (exTree.rows true).map degap = [['G', 'A'], ['C', 'A'], ['A']] := by decide
+
 /-- **REGRESSION NOTE — the code BEFORE commit 0eea0ba09 did NOT keep sub-alignments** (variant `fixed = false`;
 finding C18-progressive-merge-applies-column-gaps-at-sequence-positions, now fixed; its witness is re-checked on every
 run).  Kernel-evaluated witness, 3 sequences GA, CA, A on the guide
